@@ -273,7 +273,9 @@ def run(prop, tier):
         last_rej = lambda ops: ops[-1].get("res") == "err"
         kind_of = lambda ops: ops[-1].get("op")
         for nm, prof, mo in (("base", BASE, 2 if quick else 3), ("seeded_base", SEEDED_BASE, 2 if quick else 3),
-                             ("import", IMPORT, 2 if quick else 3), ("evolve", EVOLVE, 1 if quick else 2)):
+                             ("import", IMPORT, 2 if quick else 3), ("evolve", EVOLVE, 1 if quick else 2),
+                             # on top of an edge history (incl. an edge to a node that is no vector): refused deletes, links ...
+                             ("seeded_graph", SEEDED_G, 1 if quick else 2)):
             pr = dict(prof, MaxOps=mo, MaxRej=1)
             cr = corpus(chk, "MC_Kektor_rejected_" + nm, pr, workers=8, timeout=3000, rejleaf=True)
             br, _ = vlib.behaviours_from_corpus(cr, max_behaviours=250 if quick else 60000, rng=rng, need=last_rej, stratum=kind_of)
@@ -383,6 +385,8 @@ def run(prop, tier):
     variants = (vlib.seed() % 3,) if quick else (0, 1, 2)
     if prop == "C04" and quick:
         variants = (1,)     # efConstruction 2: both insertion paths of AddBatch are exercised
+    if prop == "C12" and quick:
+        variants = tuple(sorted({vlib.seed() % 3, 2}))   # variant 2: ids that contain the engine's "::" separator
     # vector dimension of the refinement: 3 or 5 (by seed) in the quick tier, 3 and 17 in the thorough tier
     dims = ((3, 5)[vlib.seed() % 2],) if quick else (3, 17)
     for consts, behaviours in plans:
